@@ -17,13 +17,15 @@ REGISTRY = dict(
           "[start,end]; the bracket keeps f(a)f(b)<=0 and never widens; on return |b-a|<tol with a sign change in the "
           "initial interval; the one-at-a-time protocol equals the find_root_brents loop; termination with an explicit "
           "bound whenever bisection is forced (0<start, end-start<2*eps*start: the solver's eps=1 calls away from 0). "
-          "PARTIAL: unguarded termination (TerminatesAlways) is stated, not proved. Model tied to the code by bit-exact "
+          "PARTIAL: unguarded termination (TerminatesAlways) is stated, not proved (and refuted in C19Term). Model tied to the code by bit-exact "
           "binary64 correspondence (whole runs and single steps from arbitrary states). "
           "Props/C19Term.lean adds: for 0<start, eps>=1/2, end<=start*(2eps)^m, end-start<tol*2^n every ordinate sequence "
           "converges within n(2m+2) iterations (interpolated steps allowed; TerminatesAlways holds for 0<start, eps>1/2 in "
-          "Archimedean fields), with kernel-checked witnesses that no such bound exists for eps=1/4 and that a bracket with 0 "
-          "inside creeps for ever at eps=1; the bound is checked on every real run it applies to (incl. adversarial "
-          "overshoot/greedy tapes). Still open: brackets touching 0, eps<1/2."),
+          "Archimedean fields); proved refutations: for eps=1/4 on [10,1000] no bound in (bracket,eps,tol) exists "
+          "(no_uniform_bound_eps_quarter, every N), and with 0 inside the bracket a smooth increasing f makes the loop run for "
+          "ever at eps=1 (creeping_never_terminates), so TerminatesAlways is FALSE (terminatesAlways_false); the bound is "
+          "checked on every real run it applies to (incl. adversarial overshoot/greedy tapes). Still open: brackets touching "
+          "0 from one side (start=0), termination without a uniform bound for eps<1/2 away from 0."),
     note=("Trusted: Lean kernel + propext/Classical.choice/Quot.sound; Mathlib; hand-written Model.Brent tied by "
           "correspondence only; binary64 rounding not in the theorems; termination outside the forced-bisection guard is "
           "validated by running the real class, not proved."),
